@@ -77,10 +77,11 @@ _P = {
     'rate consistency on the real functions.', PT),
  'C15': entry('Lean 4 proof (centring = central moment for all k, symmetry under all permutations, slot additivity) + route/relational oracle',
     'Theorems accumulate_center_eq(_central_moment), accumulate_perm, uncentred_add; real code: binomial combinations, symmetry, linearity, all documented '
-    'routes pairwise, memo-key separation, PSD/unit diagonal; model values for small cases; call layer of moment/accumulate (accumulateCall_eq) diffed against the real methods.', 'PSD measured (partial). '),
+    'routes pairwise, memo-key separation, PSD/unit diagonal; model values for small cases; call layer of moment/accumulate (accumulateCall_eq) and memo keys (memo_keyEq_iff, memo_reward_tuples_separate) diffed against the real methods.', 'PSD measured (partial). '),
  'C17': entry('Lean 4 proof (cache state machine refinement: every read returns the matrix of the current epoch) + history-based correspondence',
-    'Theorem C17_refinement on the model of StateSpace caching; real code: random query histories vs fresh objects, cache off, shared state spaces '
-    'through Inference.get_coal, parallel vs sequential.', 'Process-pool scheduling is runtime (partial). '),
+    'Theorems C17_refinement (StateSpace rate-matrix cache) and memo_refinement / memo_order_irrelevant / memo_fresh_equiv (functools.cache on moment, _accumulate, _get_P and the '
+    'cached_property slots: every query history answers like the memo-free evaluator); real code: random query histories vs fresh objects, cache off, shared state spaces '
+    'through Inference.get_coal, parallel vs sequential; hit/miss pattern and answers diffed against both models.', 'Process-pool scheduling is runtime (partial). '),
  'C18': entry('Lean 4 proof on a model with the codec as a parameter + round-trip oracle on the real code', 
     'Theorems: round trip preserves statistics because statistics depend on the configuration only (C17 refinement), original untouched, idempotent; '
     'real round trips via string and file for Coalescent, SFS2, Inference.', 'jsonpickle/dill correctness is the parameter law (partial by construction). '),
